@@ -1,8 +1,12 @@
 (** C12 — exists, find_one, children and siblings agree with find.  Property theorems only (Finder level, list-backed;
-    the Sid-level clauses over the file system are exercised by correspondence in the data checks). *)
+    and the Sid-level clauses - exists() is membership, children() / siblings() are the members below / beside, what exists has
+    an existing parent - over a data set materialised as a tree, for the levels served by the path finder, under decidable
+    guards evaluated on the live configuration below.  Levels served by configured constants: correspondence + oracle). *)
 From Coq Require Import List String Ascii Bool Arith Permutation Sorted.
 From Spil Require Import Base.Str Base.Dict Base.Outcome Regex.Re Conf.Conf Conf.WF Sid.Sid
   Search.Unfold Search.FindList Search.Finders Search.GlobProofs Search.FindListProofs Search.UnfoldProofs Search.FindersProofs Conf.Routing FS.Fs Data.Data Data.DataSpecProofs.
+From Spil Require Import Base.PyPath Sid.Query Sid.SidProofs Path.UnambiguousDefs Path.UnambiguousProofs Search.GlobProofs
+  Search.TreeListDefs Search.TreeListProofs Data.SidLevelDefs Data.SidLevelProofs Data.SidLevelLast.
 From SpilGen Require Hamlet.
 Import ListNotations.
 Local Open Scope string_scope.
@@ -27,7 +31,7 @@ Print Assumptions C12_as_sid.
 (* Sid level, over the file-system model: exists() is non-emptiness of FindInAll's answer; a leaf has no children; no duplicates *)
 Theorem C12_sid_exists : forall Ld Rt F x b, sid_exists Ld Rt F x = Ok b -> s_fields x <> [] ->
   exists l, find_all Ld Rt F (s_string x) = Ok l /\ b = match l with [] => false | s :: _ => truthy s end.
-Proof. exact sid_exists_spec. Qed.
+Proof. exact FindersProofs.sid_exists_spec. Qed.
 Print Assumptions C12_sid_exists.
 
 Theorem C12_leaf_no_children : forall Ld Rt F x, is_leaf Ld x = true -> children Ld Rt F x = Ok [].
@@ -54,3 +58,169 @@ Example C12_exists_empty_string_refuted :
   exists_ Hamlet.the_loaded [""] "*" = Ok false /\ find_list Hamlet.the_loaded [""] "*" = Ok [""].
 Proof. vm_compute. split; reflexivity. Qed.
 Print Assumptions C12_exists_empty_string_refuted.
+
+(** ** Sid level, over a data set materialised as a tree (Data/SidLevelProofs.v): for the levels served by the path finder *)
+
+(* FindInAll on searches routed to the path finder: exactly the matching members of the data set *)
+Theorem C12_find_all_paths :
+  forall (c : Conf) (Ld : Loaded),
+  load c = Some Ld ->
+  wf_loadedb Ld = true ->
+  paths_unambiguousb Ld = true ->
+  forall (cfg : string) (E : list sid) (F : fs),
+  dataset_ok Ld cfg E F ->
+  forall (Rt : Routing) (id s : string) (qs : list sid) (l : list string),
+  unfold_search Ld s false false = Ok qs ->
+  routed_to Rt (FPaths id cfg) qs ->
+  searches_ok Ld cfg qs ->
+  pat_inj Ld cfg qs ->
+  find_all Ld Rt F s = Ok l ->
+  forall r : string,
+  In r l <->
+  (exists e q : sid, In e E /\ In q qs /\ r = s_string e /\ s_type e = s_type q /\ glob_rel (s_string q) (s_string e)).
+Proof. exact find_all_paths_spec. Qed.
+Print Assumptions C12_find_all_paths.
+
+(* exists() is membership *)
+Theorem C12_exists_is_membership :
+  forall (c : Conf) (Ld : Loaded),
+  load c = Some Ld ->
+  wf_loadedb Ld = true ->
+  paths_unambiguousb Ld = true ->
+  forall (cfg : string) (E : list sid) (F : fs),
+  dataset_ok Ld cfg E F ->
+  forall (Rt : Routing) (id : string) (x : sid) (b : bool),
+  exists_guardb Ld Rt id cfg x = true -> sid_exists Ld Rt F x = Ok b -> b = true <-> In x E.
+Proof. exact sid_exists_specb. Qed.
+Print Assumptions C12_exists_is_membership.
+
+(* children(): the existing Sids whose parent is the Sid (when every member below it is of a searched type) *)
+Theorem C12_children_are_the_members_below :
+  forall (c : Conf) (Ld : Loaded),
+  load c = Some Ld ->
+  wf_loadedb Ld = true ->
+  paths_unambiguousb Ld = true ->
+  forall (cfg : string) (E : list sid) (F : fs),
+  dataset_ok Ld cfg E F ->
+  forall (Rt : Routing) (id : string) (x : sid) (l : list string),
+  children_guardb Ld Rt id cfg x = true ->
+  (forall (q0 : sid) (qs : list sid),
+   sid_div Ld x "*" = Ok q0 -> unfold_search Ld (s_string q0) false false = Ok qs -> covered E qs (s_string x)) ->
+  children Ld Rt F x = Ok l ->
+  forall r : string, In r l <-> (exists e : sid, In e E /\ r = s_string e /\ parent_str (s_string e) = s_string x).
+Proof. exact children_spec_coveredb. Qed.
+Print Assumptions C12_children_are_the_members_below.
+
+(* ... in general: those of a searched type *)
+Theorem C12_children_typed :
+  forall (c : Conf) (Ld : Loaded),
+  load c = Some Ld ->
+  wf_loadedb Ld = true ->
+  paths_unambiguousb Ld = true ->
+  forall (cfg : string) (E : list sid) (F : fs),
+  dataset_ok Ld cfg E F ->
+  forall (Rt : Routing) (id : string) (x : sid) (l : list string),
+  children_guardb Ld Rt id cfg x = true ->
+  children Ld Rt F x = Ok l ->
+  exists (q0 : sid) (qs : list sid),
+    sid_div Ld x "*" = Ok q0 /\
+    unfold_search Ld (s_string q0) false false = Ok qs /\
+    (forall r : string,
+     In r l <->
+     (exists e : sid,
+        In e E /\
+        r = s_string e /\
+        parent_str (s_string e) = s_string x /\
+        (exists q : sid, In q qs /\ s_type e = s_type q /\ glob_rel (s_string q) (s_string e)))).
+Proof. exact children_spec_setb. Qed.
+Print Assumptions C12_children_typed.
+
+(* siblings(): the existing Sids sharing its parent *)
+Theorem C12_siblings_set :
+  forall (c : Conf) (Ld : Loaded),
+  load c = Some Ld ->
+  wf_loadedb Ld = true ->
+  paths_unambiguousb Ld = true ->
+  forall (cfg : string) (E : list sid) (F : fs),
+  dataset_ok Ld cfg E F ->
+  forall (Rt : Routing) (id : string) (x : sid) (l : list string),
+  siblings_guardb Ld Rt id cfg x = true ->
+  siblings Ld Rt F x = Ok l ->
+  exists (k : string) (a q0 : sid) (qs : list sid),
+    keytype x = Some k /\
+    get_as Ld x k = Ok a /\
+    get_with_kw Ld a [(k, Some "*")] = Ok q0 /\
+    unfold_search Ld (s_string q0) false false = Ok qs /\
+    (forall r : string,
+     In r l <->
+     (exists e : sid,
+        In e E /\
+        r = s_string e /\
+        parent_str (s_string e) = parent_str (s_string x) /\
+        (exists q : sid, In q qs /\ s_type e = s_type q /\ glob_rel (s_string q) (s_string e)))).
+Proof. exact siblings_spec_setb. Qed.
+Print Assumptions C12_siblings_set.
+
+(* whatever exists has an existing parent (tree closed under parent directories) *)
+Theorem C12_existing_parent :
+  forall (c : Conf) (Ld : Loaded),
+  load c = Some Ld ->
+  wf_loadedb Ld = true ->
+  paths_unambiguousb Ld = true ->
+  forall (cfg : string) (E : list sid) (F : fs),
+  dataset_ok Ld cfg E F ->
+  fs_closed F ->
+  forall (Rt : Routing) (id : string) (e y : sid) (p : string) (b : bool),
+  In e E ->
+  parent Ld e = Ok y ->
+  sid_path Ld e cfg = Ok (Some p) ->
+  nat_typedb Ld y = true ->
+  concreteb Ld y = true ->
+  path_values_okb y = true ->
+  sid_path Ld y cfg = Ok (Some (parent_path p)) ->
+  parent_path p <> p -> exists_guardb Ld Rt id cfg y = true -> sid_exists Ld Rt F y = Ok b -> b = true.
+Proof. exact exists_parent. Qed.
+Print Assumptions C12_existing_parent.
+
+(** ** instance on the configuration of this run: a project down to a task with two versions, as a tree *)
+Definition Rt_opt : option Routing := parse_routing Hamlet.raw.
+Lemma Rt_parses : Rt_opt <> None.
+Proof. vm_compute. discriminate. Qed.
+Definition Rt0 : Routing :=
+  match Rt_opt as o return (o <> None -> Routing) with
+  | Some r => fun _ => r
+  | None => fun H => match H eq_refl with end
+  end Rt_parses.
+Definition mk0 (s : string) : sid := match Sid Hamlet.the_loaded s with Ok x => x | Raise _ => empty_sid end.
+Definition v1 := mk0 "hamlet/a/char/ophelia/model/v001".
+Definition v3 := mk0 "hamlet/a/char/ophelia/model/v003".
+Definition task0 := mk0 "hamlet/a/char/ophelia/model".
+(* the path finder that serves the version level, and its configuration, read from the routing table *)
+Definition fp : string * string := match finder_for Rt0 (s_type v1) with Some (FPaths i c) => (i, c) | _ => ("", "") end.
+Definition E0 : list sid := map mk0
+  ["hamlet"; "hamlet/a"; "hamlet/a/char"; "hamlet/a/char/ophelia"; "hamlet/a/char/ophelia/model";
+   "hamlet/a/char/ophelia/model/v001"; "hamlet/a/char/ophelia/model/v002"].
+Definition pathof0 (x : sid) : string := match sid_path Hamlet.the_loaded x (snd fp) with Ok (Some p) => p | _ => "" end.
+Definition F0 : fs :=
+  fold_left (fun f x => match fs_mkdir_parents f (pathof0 x) with Ok f' => f' | Raise _ => f end) E0 [("/", Dir)].
+Lemma Hpu0 : paths_unambiguousb Hamlet.the_loaded = true.
+Proof. vm_compute. reflexivity. Qed.
+Lemma HD0 : dataset_ok Hamlet.the_loaded (snd fp) E0 F0.
+Proof. apply dataset_okb_sound. vm_compute. reflexivity. Qed.
+
+Example C12_instance_exists :
+  map (exists_guardb Hamlet.the_loaded Rt0 (fst fp) (snd fp)) [task0; v1; v3] = [true; true; true] /\
+  map (sid_exists Hamlet.the_loaded Rt0 F0) [task0; v1; v3] = [Ok true; Ok true; Ok false] /\
+  children Hamlet.the_loaded Rt0 F0 task0 = Ok ["hamlet/a/char/ophelia/model/v001"; "hamlet/a/char/ophelia/model/v002"] /\
+  children_guardb Hamlet.the_loaded Rt0 (fst fp) (snd fp) task0 = true /\
+  siblings_guardb Hamlet.the_loaded Rt0 (fst fp) (snd fp) v1 = true.
+Proof. vm_compute. repeat split; reflexivity. Qed.
+Print Assumptions C12_instance_exists.
+
+Example C12_instance_membership x b : In x [task0; v1; v3] -> sid_exists Hamlet.the_loaded Rt0 F0 x = Ok b -> (b = true <-> In x E0).
+Proof.
+  intros Hx. apply (sid_exists_specb Hamlet.the_conf Hamlet.the_loaded Hamlet.the_loaded_eq Hamlet.conf_wf Hpu0 (snd fp) E0 F0 HD0 Rt0 (fst fp)).
+  assert (H : forallb (exists_guardb Hamlet.the_loaded Rt0 (fst fp) (snd fp)) [task0; v1; v3] = true) by (vm_compute; reflexivity).
+  rewrite forallb_forall in H. exact (H x Hx).
+Qed.
+Print Assumptions C12_instance_membership.
